@@ -211,8 +211,8 @@ func init() {
 				Bound: "K(a,b), ladders, trees, chains with cross links"},
 		}
 		if tier == "thorough" {
-			ps = append(ps, &Pass{Name: "G7n5", Space: spaceG(7, 7, 5, nil), Eval: stdEval("C11", staticGrid(gridSpec{P1: allP1, P2: []int{1}, P4: []int{1}, P5: []int{0}, SZ: []int{1}}.list()), or),
-				Bound: "all edge lists with 7 edges on <=5 nodes x {greedy,dfs}"})
+			ps = append(ps, &Pass{Name: "G7n5", Space: spaceG(7, 7, 5, nil), Eval: stdEval("C11", staticGrid(gridSpec{P1: []int{0}, P2: []int{1}, P4: []int{1}, P5: []int{0}, SZ: []int{1}}.list()), or),
+				Bound: "all edge lists with 7 edges on <=5 nodes x greedy"})
 		}
 		return ps
 	}
@@ -322,7 +322,7 @@ func init() {
 		}
 		conn := func(in Input, a *Analysis) bool { return a.NComp == 1 }
 		g := gridSpec{P1: allP1, P2: allP2, P3: []int{0, 1}, P4: []int{1, 2}, P5: []int{1}, SZ: []int{0, 1, 2}, SP: spLSpos, Virt: []bool{true}}.list()
-		d := tierPick(tier, 5, 6)
+		d := 5
 		ps := []*Pass{
 			{Name: "G-conn", Space: spaceG(1, d, 0, conn), Eval: stdEval("C16", staticGrid(g), or),
 				Bound: fmt.Sprintf("all connected edge lists with <=%d edges x {greedy,dfs} x {ns,lp} x {valign,packright} x {weighted-median ordering, no ordering} x {zero,fixed,per-node} sizes x NodeSpacing {4,0}, helper nodes made visible", d)},
@@ -337,6 +337,18 @@ func init() {
 			}, or), Bound: "all connected edge lists with 3..4 edges x width table in all rotations"},
 			{Name: "families", Space: spaceList(wideFamilies()), Eval: stdEval("C16", staticGrid(g), or),
 				Bound: "K(a,b) a,b<=5, stars, binary trees"},
+			{Name: "macro-3", Space: func(emit func(Input)) {
+				spaceMacro(3, false)(func(in Input) {
+					if analyze(in).NComp == 1 {
+						emit(in)
+					}
+				})
+			}, Eval: stdEval("C16", staticGrid(gridSpec{P1: []int{0}, P2: allP2, P3: []int{0, 1}, P4: []int{1, 2}, P5: []int{1}, SZ: []int{2}, Virt: []bool{true}}.list()), or),
+				Bound: "every graph built by <=3 gadget insertions (shapes with up to 13 edges) x greedy x {ns,lp} x both orderers x {valign,packright} x per-node sizes"},
+		}
+		if tier == "thorough" {
+			ps = append(ps, &Pass{Name: "G6-conn", Space: spaceG(6, 6, 0, conn), Eval: stdEval("C16", staticGrid(gridSpec{P1: []int{0}, P2: allP2, P3: []int{0, 1}, P4: []int{1, 2}, P5: []int{1}, SZ: []int{2}, SP: spLSpos, Virt: []bool{true}}.list()), or),
+				Bound: "all connected edge lists with 6 edges x greedy x {ns,lp} x both orderers x {valign,packright} x per-node sizes x NodeSpacing {4,0}"})
 		}
 		return ps
 	}
